@@ -14,6 +14,23 @@ Definition benign (e : err) : bool :=
   | _ => false
   end.
 
+(* the CloseOk of a channel whose own Close crossed the server's arrives for a slot that is
+   gone: that is not an error (each request either takes effect before the close or fails with
+   the close's error - it does not end the connection) *)
+Definition only_chan_close_ok (o : cop) : bool :=
+  match frames_of_op o with
+  | [] => false
+  | fs => forallb (fun f => match f with FMethod n MChanCloseOk => negb (n =? 0) | _ => false end) fs
+  end.
+Fixpoint late_close_ok_fine (prev_phase : N) (l : list (cop * cobs * digest)) : bool :=
+  match l with
+  | [] => true
+  | (o, b, d) :: l' =>
+      (if only_chan_close_ok o && (prev_phase =? 0)
+       then match b with BOutcome OOk _ _ => true | BOutcome _ _ _ => false | _ => true end
+       else true) && late_close_ok_fine (d_phase d) l'
+  end.
+
 Fixpoint after_close (seen : bool) (l : list (cop * cobs * digest)) : bool :=
   match l with
   | [] => true
@@ -38,5 +55,6 @@ Fixpoint after_close (seen : bool) (l : list (cop * cobs * digest)) : bool :=
 
 Definition oracle_ok (c : case) : bool :=
   let '(_, _, ops, obs, aux) := c in
-  oracle_no_panic obs && oracle_consumers ops obs && after_close false (zip3 ops obs).
+  oracle_no_panic obs && oracle_consumers ops obs && after_close false (zip3 ops obs) &&
+  late_close_ok_fine 0 (zip3 ops obs).
 Definition bad_oracle (cs : list case) : list N := bad_idx oracle_ok 0 cs.
